@@ -19,7 +19,8 @@ DECIDING = ["round-trip", "bijection-on-prefix-free"]
 ALSO_COUNT = ["query-model:compress", "query-model:expand", "query-model:expand_all", "query-model:standardize_uri", "query-model:standardize_curie"]
 RULE = (
     "case = random clash-free record set whose CURIE prefixes do not contain the delimiter (empty prefix included; half "
-    "of the cases are forced pairwise prefix-free, the rest nest), built in a random way; for every recognised URI u "
+    "of the cases are forced pairwise prefix-free, the rest nest), built in a random way - every third case by registering "
+    "record after record while URIs and CURIEs of the final map are already being looked up; for every recognised URI u "
     "derived from it (identifiers include tails of other records' URI prefixes): u in expand_all(compress(u)), "
     "expand(compress(u)) == standardize_uri(u) (== u when u uses a canonical URI prefix), expand results compress again; "
     "on prefix-free maps additionally compress(expand(c)) == standardize_curie(c) and expand(compress(u)) == "
@@ -52,12 +53,27 @@ def run_case(ctx, g, rng):
         recs = make_prefix_free(recs)
     if not recs:
         return
-    c, how = gen.build(api, recs, d, rng)
+    allu = [u for r in recs for u in spec.all_u(r)]
+    if g % 3 == 1:
+        # history route: URIs and CURIEs are looked up while (part of) the map is still unregistered
+        c = api.Converter([], delimiter=d)
+        how = "queried-while-growing"
+        for r in rng.sample(recs, k=len(recs)):
+            for u0 in allu[:6]:
+                call(c.compress, u0 + "1")
+                call(c.standardize_uri, u0 + "1")
+            for p0 in spec.all_p(r)[:2]:
+                call(c.expand, p0 + d + "1")
+            if rng.random() < 0.5:
+                call(c.add_record, gen.mk_record(api, r))
+            else:
+                call(c.add_prefix, r.prefix, r.uri_prefix, list(r.psyn), list(r.usyn))
+    else:
+        c, how = gen.build(api, recs, d, rng)
     sp = spec.SpecConverter(recs, d)
     pf = sp.prefix_free()
-    allu = [u for r in recs for u in spec.all_u(r)]
     tails = [u2[len(u1):] for u1 in allu for u2 in allu if u2 != u1 and u2.startswith(u1)]
-    ids = rng.sample(gen.IDS, k=4) + tails[:4] + ["", d, rng.choice(gen.UNICODE)]
+    ids = ["1"] + rng.sample(gen.IDS, k=4) + tails[:4] + ["", d, rng.choice(gen.UNICODE)]
     w = {"records": [spec.rec_dict(r) for r in recs], "delimiter": d, "prefix_free": pf}
     for u0 in allu:
         for i in ids:
